@@ -270,8 +270,14 @@ def r2_blocks(program, folder, rep, sites, ffl):
     cnt = None
     for extra_, tv in cases:
         cnt = direct if tv is None else sym_t(tv)
-        ok = ok and ffl.prove(node, [lt(D * (cnt - 1), L), le(L, D * cnt)],
-                              extra=[lt(0, L)] + extra_, use_facts=False)
+        Lc = L
+        if tv is not None:
+            # the length of what is sent, read the same way as the count
+            dnode_ = TB.cfg.node_containing(dsite)
+            Lc = sym_t(("call", ("global", "len"),
+                        (TB.term(dsite.args[1], dnode_),), ()))
+        ok = ok and ffl.prove(node, [lt(D * (cnt - 1), Lc), le(Lc, D * cnt)],
+                              extra=[lt(0, Lc)] + extra_, use_facts=False)
     rep.check(ok, "C09-R2", inst, "announced block count = ceil(len(binary) "
               "/ scp_data_length)", construct="announced count %r" % (cnt,),
               node=nb,
@@ -495,6 +501,39 @@ def r3_ids(program, folder, rep):
     rep.floor("C09-R3", 8)
 
 
+def _dict_emptiness(fact, var=None):
+    """The fact ``(term, polarity)`` with a test of the length (or, for the
+    variable ``var``, of the truth value) of a dictionary X written as the
+    comparison ``X == {}``."""
+    t, p = fact
+    EMPTY = ("dict", ())
+
+    def length(x):
+        return x[2][0] if x[0] == "call" and x[1] == ("global", "len") and \
+            len(x[2]) == 1 and not x[3] else None
+    if t[0] == "mu" and var is not None and t[1].var == var:
+        return ("cmp", "Eq", plain(t), EMPTY), not p
+    t = plain(t)
+    if t[0] == "cmp" and p in (True, False):
+        a, b = t[2], t[3]
+        for x, c, flip in ((a, b, False), (b, a, True)):
+            X = length(x)
+            if X is None or c[0] != "const" or c[1] not in (0, 1) or \
+                    isinstance(c[1], bool):
+                continue
+            op = t[1]
+            if op == "Eq" and c[1] == 0:
+                return ("cmp", "Eq", X, EMPTY), p
+            if not p:
+                continue
+            # len(X) op c (flip: c op len(X))
+            if (op, c[1], flip) in (("Lt", 0, True), ("LtE", 1, True)):
+                return ("cmp", "Eq", X, EMPTY), False
+            if (op, c[1], flip) in (("LtE", 0, False), ("Lt", 1, False)):
+                return ("cmp", "Eq", X, EMPTY), True
+    return t, p
+
+
 def r4_retry(program, rep):
     fn = program.get(CTRL + ".load_application")
     inst = qual(fn)
@@ -524,7 +563,8 @@ def r4_retry(program, rep):
         raise AnalysisError("load_application: what each attempt fills")
     UNL = fargs[0]
     EMPTY = ("dict", ())
-    facts_in = [(plain(t), p_) for t, p_ in T.all_facts(ffn)]
+    facts_in = [_dict_emptiness((t, p_), UNL[1].var)
+                for t, p_ in T.all_facts(ffn)]
     # the loop runs while something is unloaded and attempts remain
     cnt = [t[2] for t, p_ in T.all_facts(ffn)
            if p_ and t[0] == "cmp" and t[1] in ("LtE", "Lt") and
@@ -644,6 +684,11 @@ def r4_retry(program, rep):
         UNL = T.term(ast.Name(id=rebind.var, ctx=ast.Load()),
                      T.cfg.loop_head[id(w)])
         m3 = T.built_map(D3)
+        if len(m3) != 1 or m3[0][0][0] != "items":
+            raise AnalysisError("load_application: the map of cores still "
+                                "to load is not rebuilt by walking a map's "
+                                "items (binaries, chips, cores) but from some "
+                                "other collection; that form is not analysed")
         oks = len(m3) == 1 and m3[0][0] == ("items", UNL)
     if oks:
         E1 = ("elem", ("items", UNL))
@@ -737,9 +782,10 @@ def r4_retry(program, rep):
         if raise_name(r) == "SpiNNakerLoadingError" and not _inside(r, w):
             rn = T.cfg.node_of(r)
             args = [T.term(a_, rn) for a_ in r.exc.args]
-            before = [(plain(t), p_) for t, p_ in T.all_facts(
-                T.cfg.loop_head[id(w)])]
-            f = [x for x in [(plain(t), p_) for t, p_ in T.all_facts(rn)]
+            before = [_dict_emptiness((t, p_), UNL[1].var)
+                      for t, p_ in T.all_facts(T.cfg.loop_head[id(w)])]
+            f = [x for x in [_dict_emptiness((t, p_), UNL[1].var)
+                             for t, p_ in T.all_facts(rn)]
                  if x not in before]
             okr = len(args) == 1 and args[0][0] == "mu" and \
                 args[0][1].var == UNL[1].var and any(
@@ -767,9 +813,10 @@ def r4_retry(program, rep):
     if oks:
         sn = T.cfg.node_containing(ss[0])
         sargs = [plain(T.term(a_, sn)) for a_ in ss[0].args]
-        before = [(plain(t), p_) for t, p_ in T.all_facts(
-            T.cfg.loop_head[id(w)])]
-        f = [x for x in [(plain(t), p_) for t, p_ in T.all_facts(sn)]
+        before = [_dict_emptiness((t, p_), UNL[1].var)
+                  for t, p_ in T.all_facts(T.cfg.loop_head[id(w)])]
+        f = [x for x in [_dict_emptiness((t, p_), UNL[1].var)
+                         for t, p_ in T.all_facts(sn)]
              if x not in before]
         empty_known = UNL_after is not None and any(
             (("cmp", "Eq", a_, b_), True) in f
